@@ -1035,6 +1035,7 @@ package spec
 //@   ensures  [C18] cache-dom-monotone @@ forall u string :: old(cacheDom[u]) ==> cacheDom[u]
 //@   ensures  [C03] memo-monotone @@ forall k string :: old(has(resolver.context.circulars, k)) ==> has(resolver.context.circulars, k)
 //@   ensures  loaders-immutable @@ forall l *schemaLoader :: allocated(l) ==> l.root == old(l.root) && l.options == old(l.options) && l.cache == old(l.cache) && l.context == old(l.context)
+//@   ensures  [C19,C03] ref-cleared @@ result == nil && payload(input) != nil ==> refString(derefRefOf(input)) == "" && !derefRefOf(input).HasFragmentOnly && !derefRefOf(input).HasFullURL && !derefRefOf(input).HasURLPathOnly
 //@ specfn nilStrings() []string
 //@ axiom sliceArr(nilStrings()) == nil
 
@@ -1072,6 +1073,7 @@ package spec
 //@   ensures  [C18] cache-dom-monotone @@ forall u string :: old(cacheDom[u]) ==> cacheDom[u]
 //@   ensures  [C03] memo-monotone @@ forall k string :: old(has(resolver.context.circulars, k)) ==> has(resolver.context.circulars, k)
 //@   ensures  loaders-immutable @@ forall l *schemaLoader :: allocated(l) ==> l.root == old(l.root) && l.options == old(l.options) && l.cache == old(l.cache) && l.context == old(l.context)
+//@   ensures  [C19,C03] ref-cleared @@ result == nil && pathItem != nil ==> refString(&pathItem.Ref) == "" && !pathItem.Ref.HasFragmentOnly && !pathItem.Ref.HasFullURL && !pathItem.Ref.HasURLPathOnly
 //@   loop 0 invariant sameRun(resolver, resolver0) && resolver.options == old(resolver0.options) && canonBase(basePath)
 //@   loop 0 invariant runInv(resolver0, old(resolver0.options), old(resolver0.cache), old(resolver0.context), old(resolver0.options.ContinueOnError), old(resolver0.options.SkipSchemas), old(resolver0.options.AbsoluteCircularRef), old(failures))
 //@   loop 0 invariant forall u string :: old(cacheDom[u]) ==> cacheDom[u]
